@@ -7,7 +7,8 @@
            [4 n sid] n DATA frames (1 byte) on the never-opened stream sid  [5 sid] request on new stream sid whose
            handler writes its response HEADERS and blocks  [6 sid] RST_STREAM for sid
            [7] (last) the client starts reading again, sends a marker PING and reports the control frames it receives
-               (skipped when closed or when `limit` frames are queued: the marker itself would cross the limit)
+               (skipped when closed or when `limit` frames are queued: the marker itself would cross the limit);
+               it waits until the blocked handlers' HEADERS frames have arrived too and is followed by one more sample
    output: first sample, then per op a sample [queued zeroLen streamFrames closed] taken on the serve goroutine after a
            SETTINGS barrier (streamFrames = -1 once closed), or for [7]: [7 [tag ...]] (PING ack = id, RST_STREAM = -sid,
            small connection WINDOW_UPDATE = 0, marker = 999999999; SETTINGS acks are not reported: whether the ack
@@ -67,10 +68,18 @@ Definition drain_out (limit : Z) (c : conn) : val :=
   if closed c || (limit <=? queued c) then VL [VZ 7; VL []]
   else VL [VZ 7; VL (map VZ (filter (fun t => negb (t =? TAG_ACK)) (rev (started (drain limit c)))))].
 
+(* the state after [7]: drained (all queues written) unless the drain is skipped *)
+Definition drain_state (limit : Z) (c : conn) : conn :=
+  if closed c || (limit <=? queued c) then c else drain limit c.
+
 Fixpoint run_ops (limit : Z) (ops : list cop) (st : conn * Z) {struct ops} : option (list val) :=
   match ops with
   | [] => Some []
-  | CDrain :: r => match r with [] => Some [drain_out limit (fst st)] | _ => None end
+  | CDrain :: r =>
+    match r with
+    | [] => Some [drain_out limit (fst st); sample (barrier limit (drain_state limit (fst st)))]
+    | _ => None
+    end
   | o :: r =>
     let st' := apply_cop limit o st in
     let c' := barrier limit (fst st') in
@@ -94,6 +103,21 @@ Definition run_C37 (i : val) : val :=
       end
     else VErr 0
   | _ => VErr 0
+  end.
+
+(* executable well-formedness of an input: shape, non-negative numbers, decodable operations, [7] only as last one *)
+Fixpoint drain_last (l : list cop) : bool :=
+  match l with
+  | [] => true
+  | CDrain :: r => match r with [] => true | _ => false end
+  | _ :: r => drain_last r
+  end.
+Definition wf_C37 (i : val) : bool :=
+  match i with
+  | VL [VZ limit; VZ stall; VL ops] =>
+    (0 <=? limit) && (0 <=? stall) &&
+    match all_some (map dec_cop ops) with Some cops => drain_last cops | None => false end
+  | _ => false
   end.
 
 Definition agree_C37 (i o : val) : bool := val_eqb (run_C37 i) o.
